@@ -643,3 +643,183 @@ pub fn c05_sigint_case(ctx: &Ctx, env: &RealEnv, dir: &Path, case: u64, seed: u6
         rep.sample(mk);
     }
 }
+
+// ------------------------------------------------------------------------
+// what the user sees on the terminal
+
+/// Minimal emulation of the sequences n2's display uses (CR, LF, `ESC[nA` cursor up, `ESC[J` clear to
+/// end of screen; other CSI sequences are ignored): returns the rows left on the screen and in the
+/// scrollback once everything has been drawn.  Rows are logical lines (no wrapping is modelled; n2 cuts
+/// the lines of its redrawn area to the terminal width, and only that area is ever moved over).
+pub fn screen_rows(bytes: &[u8]) -> Vec<String> {
+    let mut rows: Vec<Vec<u8>> = vec![Vec::new()];
+    let (mut r, mut c) = (0usize, 0usize);
+    let mut i = 0;
+    while i < bytes.len() {
+        let b = bytes[i];
+        if b == 0x1b && i + 1 < bytes.len() && bytes[i + 1] == b'[' {
+            let mut j = i + 2;
+            let mut num = 0usize;
+            let mut has = false;
+            while j < bytes.len() && !(0x40..=0x7e).contains(&bytes[j]) {
+                if bytes[j].is_ascii_digit() {
+                    num = num * 10 + (bytes[j] - b'0') as usize;
+                    has = true;
+                }
+                j += 1;
+            }
+            if j < bytes.len() {
+                match bytes[j] {
+                    b'A' => r = r.saturating_sub(if has { num } else { 1 }),
+                    b'J' => {
+                        rows.truncate(r + 1);
+                        rows[r].truncate(c);
+                    }
+                    _ => {}
+                }
+            }
+            i = j + 1;
+            continue;
+        }
+        match b {
+            b'\r' => c = 0,
+            b'\n' => {
+                r += 1;
+                c = 0;
+                if r >= rows.len() {
+                    rows.push(Vec::new());
+                }
+            }
+            _ => {
+                let row = &mut rows[r];
+                if c < row.len() {
+                    row[c] = b;
+                } else {
+                    while row.len() < c {
+                        row.push(b' ');
+                    }
+                    row.push(b);
+                }
+                c += 1;
+            }
+        }
+        i += 1;
+    }
+    rows.iter().map(|r| String::from_utf8_lossy(r).into_owned()).collect()
+}
+
+/// C16 on a terminal: what commands print reaches the screen once, contiguously, under their header.
+pub fn c16_pty_case(ctx: &Ctx, env: &RealEnv, dir: &Path, case: u64, seed: u64, rep: &mut Report) {
+    let mut rng = Rng::new(seed);
+    clear_dir(dir);
+    let n = rng.range(2, if ctx.thorough() { 14 } else { 8 });
+    struct T {
+        msg: String,
+        lines: Vec<String>,
+        code: i32,
+        term: bool,
+        hide_success: bool,
+    }
+    let mut tasks: Vec<T> = Vec::new();
+    let mut manifest = String::new();
+    for i in 0..n {
+        let nl = *rng.pick(&[0usize, 0, 1, 2, 4]);
+        let tag = rng.next() % 100000;
+        let lines: Vec<String> = (0..nl).map(|k| format!("T{}-{}-{:05}{}", i, k, tag, if rng.chance(1, 4) { " é ビルド" } else { "" })).collect();
+        let code = if rng.chance(1, 3) { *rng.pick(&[1, 2, 3, 127, 128, 255]) } else { 0 };
+        let term = code == 0 && rng.chance(1, 8);
+        let hide_success = rng.chance(1, 3);
+        let mut cmd = String::new();
+        for (k, l) in lines.iter().enumerate() {
+            let last = k + 1 == lines.len();
+            let fmt = if last && rng.chance(1, 3) { "%s" } else { "%s\\n" };
+            cmd.push_str(&format!("printf '{}' '{}'{}; ", fmt, l, if rng.chance(1, 2) { " >&2" } else { "" }));
+        }
+        if rng.chance(1, 2) {
+            cmd.push_str(&format!("sleep 0.{:02}; ", rng.below(20)));
+        }
+        if term {
+            cmd.push_str("kill -TERM $$$$");
+        } else {
+            cmd.push_str(&format!(": > o{}; exit {}", i, code));
+        }
+        let desc = if rng.chance(1, 2) { Some(format!("DESC {} step", i)) } else { None };
+        manifest.push_str(&format!("rule r{}\n  command = {}\n", i, cmd));
+        if let Some(d) = &desc {
+            manifest.push_str(&format!("  description = {}\n", d));
+        }
+        if hide_success {
+            manifest.push_str("  hide_success = 1\n");
+        }
+        manifest.push_str(&format!("build o{}: r{}\n", i, i));
+        let msg = desc.unwrap_or_else(|| cmd.replace("$$$$", "$$"));
+        tasks.push(T { msg, lines, code, term, hide_success });
+    }
+    std::fs::write(dir.join("build.ninja"), &manifest).unwrap();
+    let j = *rng.pick(&[1usize, 2, 8]);
+    let cols = *rng.pick(&[200u16, 250, 300]);
+    let args: Vec<String> = vec!["-j".into(), j.to_string(), "-k".into(), "1000".into()];
+    let mut s = match Session::spawn(env, dir, &args, Some((cols, 50))) {
+        Ok(s) => s,
+        Err(e) => {
+            rep.inconclusive.push(format!("case {}: {}", case, e));
+            return;
+        }
+    };
+    rep.evaluations += 1;
+    rep.count("pty_output_builds", 1);
+    let end = s.wait_exit(Duration::from_secs(60));
+    let rows = screen_rows(&s.shown);
+    let mk = || {
+        J::obj()
+            .with("case", J::i(case))
+            .with("j", J::i(j))
+            .with("manifest", J::s(&manifest))
+            .with("screen", J::strs(rows.iter().rev().take(60).rev().cloned()))
+    };
+    let Some((exit, sig)) = end else {
+        rep.inconclusive.push(format!("case {}: n2 did not finish within 60 s", case));
+        return;
+    };
+    let any_fail = tasks.iter().any(|t| t.code != 0 || t.term);
+    if sig.is_some() || exit != Some(if any_fail { 1 } else { 0 }) {
+        rep.violation("pty:exit-status", &format!("n2 ended {:?}/{:?}; commands failing: {}", exit, sig, any_fail), mk());
+        return;
+    }
+    for (i, t) in tasks.iter().enumerate() {
+        let failed = t.code != 0 || t.term;
+        let shown = failed || (!t.hide_success && !t.lines.is_empty());
+        if !shown {
+            continue;
+        }
+        let header = if failed { format!("failed: {}", t.msg) } else { t.msg.clone() };
+        let hpos: Vec<usize> = rows.iter().enumerate().filter(|(_, r)| **r == header).map(|(k, _)| k).collect();
+        if hpos.len() != 1 {
+            let what = if failed { "pty:failure-not-reported" } else { "pty:header-count" };
+            rep.violation(what, &format!("step {}: header {:?} is on the screen {} times", i, header, hpos.len()), mk());
+            return;
+        }
+        let at = hpos[0];
+        for (k, l) in t.lines.iter().enumerate() {
+            // (n2 appends a `signal N` note to what a killed command printed; it lands on the last line
+            // when that has no newline)
+            let noted = t.term && k + 1 == t.lines.len();
+            let is_l = |r: &String| if noted { r.starts_with(l.as_str()) } else { r == l };
+            let count = rows.iter().filter(|r| is_l(r)).count();
+            if count != 1 {
+                rep.violation("pty:output-line-count", &format!("step {}: output line {:?} is on the screen {} times", i, l, count), mk());
+                return;
+            }
+            if !rows.get(at + 1 + k).map(|r| is_l(r)).unwrap_or(false) {
+                rep.violation("pty:output-not-contiguous", &format!("step {}: line {} of its output is not at row {} under its header (row {})", i, k, at + 1 + k, at), mk());
+                return;
+            }
+        }
+        rep.count("pty_task_outputs_checked", 1);
+    }
+    if tasks.iter().any(|t| (t.code != 0 || t.term) && t.hide_success) {
+        rep.nontrivial.insert(fnv(manifest.as_bytes()));
+    }
+    rep.nontrivial.insert(fnv(manifest.as_bytes()) ^ 1);
+    rep.sample(mk);
+}
